@@ -84,6 +84,24 @@ func (u *Unit) call(st *State, fr *Frame, in *ssa.Call) ([]Outcome, bool) {
 			ret = tv
 		}
 		st.trace = append(st.trace, CallRec{fv.Sym, args, ret})
+		// symbolic trace (one scalar argument, boolean or no result)
+		if len(args) == 1 {
+			if av, ok := args[0].(IntV); ok {
+				if st.tlen == nil {
+					st.tlen, st.targ, st.tret = IntK(0), zeroMem{av.T.Sort}, zeroMem{SortBool}
+				}
+				if st.targ == nil {
+					st.targ, st.tret = baseMem{Fresh("cb.arg", ArrSort(SortInt, av.T.Sort))}, baseMem{Fresh("cb.ret", ArrSort(SortInt, SortBool))}
+				}
+				if st.targ.sort() == av.T.Sort {
+					st.targ = storeMem{st.targ, st.tlen, av.T}
+					if rb, ok := ret.(BoolV); ok {
+						st.tret = storeMem{st.tret, st.tlen, rb.T}
+					}
+					st.tlen = IntAdd(st.tlen, IntK(1))
+				}
+			}
+		}
 		return []Outcome{{st, ret}}, true
 	}
 	u.require(st, fr, False, "nil-func-call", in)
